@@ -80,6 +80,21 @@ def make_atomizer(subst, env, set_names=()):
                 if isinstance(op, (ast.Eq, ast.NotEq)) and nm(ll) and nm(lr):
                     a, b = sorted([nm(ll), nm(lr)])
                     return (f'LenNe({a},{b})', isinstance(op, ast.NotEq))
+                if isinstance(op, (ast.Lt, ast.Gt)) and nm(ll) and nm(lr):
+                    # a one-sided length comparison is its own (weaker) condition, never the required "lengths differ"
+                    a, b = (nm(ll), nm(lr)) if isinstance(op, ast.Lt) else (nm(lr), nm(ll))
+                    return (f'LenLt({a},{b})', True)
+            if ll is not None and lr is not None and isinstance(op, (ast.LtE, ast.GtE)) and nm(ll) and nm(lr):
+                a, b = (nm(ll), nm(lr)) if isinstance(op, ast.GtE) else (nm(lr), nm(ll))
+                return (f'LenLt({a},{b})', False)
+            # set inclusion spelled with comparison operators: a <= b is issubset, a < b is *proper* subset
+            if ll is None and lr is None and isinstance(op, (ast.Lt, ast.LtE, ast.Gt, ast.GtE)) and isinstance(l, ast.Name) and isinstance(r, ast.Name):
+                a_, b_ = (l, r) if isinstance(op, (ast.Lt, ast.LtE)) else (r, l)
+                sa = env.expand(a_) if env else a_
+                if _set_of(sa, env) is not None or (isinstance(sa, ast.Call) and name_is(sa.func, 'set')):
+                    if isinstance(op, (ast.LtE, ast.GtE)):
+                        return (f'NotSubset({nm(a_)},{nm(b_)})', False)
+                    return (f'NotProperSubset({nm(a_)},{nm(b_)})', False)
             # {len(b) for b in bools} != {len(properties)}
             if isinstance(op, (ast.Eq, ast.NotEq)):
                 for a, b in ((l, r), (r, l)):
